@@ -119,6 +119,26 @@ impl ObjectWriter for ObjectWriterFS {
         let relative_path = content_location_path
             .strip_prefix('/')
             .unwrap_or(content_location_path);
+
+        // The destination must stay inside the destination directory:
+        // refuse absolute paths and paths that contain '..'
+        let is_inside_dest = std::path::Path::new(relative_path).components().all(|c| {
+            matches!(
+                c,
+                std::path::Component::Normal(_) | std::path::Component::CurDir
+            )
+        });
+        if !is_inside_dest {
+            log::error!(
+                "Content location {:?} is outside of the destination directory",
+                self.meta.content_location
+            );
+            return Err(FluteError::new(format!(
+                "Content location {:?} is outside of the destination directory",
+                self.meta.content_location
+            )));
+        }
+
         let destination = self.dest.join(relative_path);
         log::info!(
             "Create destination {:?} {:?} {:?}",
